@@ -151,7 +151,10 @@ def run(cx):
                 return "ret=" + s["rv"]["variant"]
             return None
         ws = seq_words(b, call_sym, stmt_sym, extra)
-        check_words(ob, b, ws, {"id(end_entity) !err <return>", "id(end_entity) pin!=presented ret=Err <return>",
+        # an error exit is an error exit whether written `return Err(..)` or propagated with `?` (from a helper that built it)
+        ws = {tuple(x_ for i_, x_ in enumerate(w2) if not (x_ == "ret=Err" and i_ > 0 and w2[i_ - 1] == "ret=Err"))
+              for w2 in (["ret=Err" if x_ == "!err" else x_ for x_ in w_] for w_ in ws)}
+        check_words(ob, b, ws, {"id(end_entity) ret=Err <return>", "id(end_entity) pin!=presented ret=Err <return>",
                                 "id(end_entity) pin==presented ret=delegate(end_entity) <return>"}, "ExpectedCertVerifier::verify_server_cert")
 
     with cx.ob("C03.4", "R-MUSTPASS", "wire::handshake: listener returns Ok only after ack written, finished and consumed; dialer only after reading a valid ack") as ob:
